@@ -17,6 +17,7 @@ import (
 	"github.com/go-netty/go-netty/utils"
 
 	"verifharness/mock"
+	"verifharness/sched"
 )
 
 type ScriptItem struct {
@@ -153,11 +154,22 @@ func newCarrierChannelExec(async bool, ex netty.Executor) (netty.Channel, *mock.
 }
 
 func waitStream(tr *mock.Transport, want int) []byte {
-	deadline := time.Now().Add(2 * time.Second)
+	// until everything expected has been written and flushed, or nothing can move any more (goroutine statuses)
+	deadline := time.Now().Add(30 * time.Second)
+	quiet := 0
 	for {
 		stream, fl, _, _ := tr.Snapshot()
 		if (len(stream) >= want && fl == len(stream)) || time.Now().After(deadline) {
 			return stream
+		}
+		if sched.AllQuiet() {
+			quiet++
+			if quiet >= 3 {
+				stream, _, _, _ = tr.Snapshot()
+				return stream
+			}
+		} else {
+			quiet = 0
 		}
 		time.Sleep(200 * time.Microsecond)
 	}
